@@ -1286,12 +1286,12 @@ static void run_worker(int count, size_t lo, size_t hi) { run_worker_ex(count, l
 /* re-allocate some of the live blocks of the main thread to a (much) larger size: needs fresh memory, so under a fault plan the call
    may fail -- the original block must then still be there with its contents (C05 / C07) */
 static void grow_some(int count) {
-  static const int gops[] = { R_realloc, R_reallocn, R_rezalloc, R_recalloc, R_realloc_aligned, R_reallocf, R_heap_realloc };
+  static const int gops[] = { R_realloc, R_reallocn, R_rezalloc, R_recalloc, R_realloc_aligned, R_reallocf, R_heap_realloc, R_reallocarr, R_reallocarray };
   for (int i = 0; i < count; i++) {
     int s = pick_live(); if (s < 0 || slots[s].heap != hps[0].id || slots[s].al != 0) continue;
     size_t o = slots[s].req;
     size_t nn = (o < 100000 ? o * 3 + 70000 : o < ((size_t)4 << 20) ? o * 2 + ((size_t)1 << 20) : o + ((size_t)48 << 20));
-    int op = gops[vf_randn(7)];
+    int op = gops[vf_randn(9)];
     if ((rops[op].fl & F_ZERO) && !slots[s].zl) op = R_realloc;
     op_realloc_ex(op, s, nn, 0, 0);
     maybe_clock();
